@@ -235,6 +235,20 @@ pub fn gen(args: &Args) {
                 pl = p as u64;
             }
         }
+        // the inserted single-action node is named "wrap" - or like a several-action infoset of the OTHER player that is not
+        // also a name of the owner's (infoset names are per player)
+        let mut wrap_name = "wrap".to_string();
+        if kind == "wrapp" && r.chance(0.6) {
+            let (mut own, mut other, mut own_s, mut other_s) = (BTreeMap::new(), BTreeMap::new(), BTreeMap::new(), BTreeMap::new());
+            t.infos(pl as u8, &mut own);
+            t.infos(3 - pl as u8, &mut other);
+            t.singles(pl as u8, &mut own_s);
+            t.singles(3 - pl as u8, &mut other_s);
+            let _ = other_s;
+            if let Some(n) = other.keys().find(|n| !own.contains_key(*n) && !own_s.contains_key(*n)) {
+                wrap_name = n.clone();
+            }
+        }
         let c = match kind {
             "rescale" if div != 0 => *r.pick(&[7i64, 1, 3]),
             "scale" => *r.pick(&[2i64, 3, 7, 4]),
@@ -246,7 +260,7 @@ pub fn gen(args: &Args) {
         let budget = id % 3;
         let par = cfr::gen_rational_params(&mut r, budget);
         out.line(&json!({"id": id, "tree": t, "prof": prof, "par": par, "T": budget,
-            "xf": {"kind": kind, "nodes": nodes, "c": c, "pl": pl, "div": div}}));
+            "xf": {"kind": kind, "nodes": nodes, "c": c, "pl": pl, "div": div, "name": wrap_name}}));
     }
 }
 
